@@ -32,8 +32,11 @@ var c03Inl = []inl{
 	{"a-js", func(t *ora.Tok) string { return "<a href=\"javascript:void(0)\">" + t.W(2) + "</a>" }},
 	{"a-jsb", func(t *ora.Tok) string { return "<a href=\"javascript:go(1)\"><b>" + t.W(1) + "</b></a>" }},
 	{"b-i", func(t *ora.Tok) string { return "<b><i>" + t.W(1) + "</i> " + t.W(1) + "</b>" }},
-	{"a-js2", func(t *ora.Tok) string { return "<a href=\"javascript:void(0)\">" + t.W(1) + "<i>" + t.W(1) + "</i></a>" }},
+	{"a-js2", func(t *ora.Tok) string {
+		return "<a href=\"javascript:void(0)\">" + t.W(1) + "<i>" + t.W(1) + "</i></a>"
+	}},
 	{"a-js3", func(t *ora.Tok) string { return "<a href=\"javascript:void(0)\">" + t.W(1) + "<br>" + t.W(1) + "</a>" }},
+	{"a-hash", func(t *ora.Tok) string { return "<a href=\"#\">" + t.W(2) + "</a>" }},
 	// thorough only:
 	{"i", wrapInl("i")},
 	{"em", wrapInl("em")},
@@ -42,7 +45,7 @@ var c03Inl = []inl{
 	{"a-rel", func(t *ora.Tok) string { return "<a href=\"rel/" + t.U() + ".html\">" + t.W(2) + "</a>" }},
 }
 
-const c03QuickSyms = 13
+const c03QuickSyms = 14
 
 var c03Contexts = []string{"body", "div", "li", "blockquote", "td-layout", "td-data"}
 var c03Surround = []string{"kept", "dropped", "between"}
@@ -90,7 +93,31 @@ func c03Doc(seq []int, ctx, sur string) string {
 	return "<html><head><title>" + ora.DefaultTitle + "</title></head><body>" + body + "</body></html>"
 }
 
+// c03DeepDoc nests the probe paragraph under `depth` plain div wrappers.
+func c03DeepDoc(depth int, ctx string) string {
+	t := &ora.Tok{}
+	p := "<p>" + t.W(11) + " <b>" + t.W(2) + "</b> " + t.W(6) + " <i>" + t.W(2) + "</i> <a href=\"http://example.com/l/x\">" + t.W(2) + "</a> " + t.W(5) + "</p>"
+	switch ctx {
+	case "blockquote":
+		p = "<blockquote>" + p + "</blockquote>"
+	case "td-layout":
+		p = "<table><tr><td>" + p + "</td></tr></table>"
+	}
+	pc := func() string { return "<p>" + t.W(21) + "</p>" }
+	return "<html><head><title>" + ora.DefaultTitle + "</title></head><body><div class=\"main\">" + pc() + pc() + strings.Repeat("<div>", depth) + p + strings.Repeat("</div>", depth) + pc() + "</div></body></html>"
+}
+
 func c03Enumerate(tier string, emit func(*eng.Case)) {
+	// every nesting depth up to 300 (a walker or clone that gives up at some depth cuts a paragraph)
+	maxDepth := 300
+	for d := 1; d <= maxDepth; d++ {
+		for _, ctx := range []string{"div", "blockquote", "td-layout"} {
+			if tier != "thorough" && ctx != "div" && d%2 == 1 {
+				continue
+			}
+			emit(&eng.Case{Kind: "deep", HTML: c03DeepDoc(d, ctx), P: map[string]string{"doc": fmt.Sprintf("probe paragraph under %d nested divs, in %s", d, ctx)}})
+		}
+	}
 	nsym, maxLen := c03QuickSyms, 4
 	if tier == "thorough" {
 		nsym, maxLen = len(c03Inl), 5
@@ -228,8 +255,8 @@ func init() {
 	eng.Register(&eng.Prop{
 		ID:        "C03",
 		DesignRef: "§5 C03",
-		Rule: "one probe paragraph whose children are every sequence of length <= 4 over 13 inline symbols (quick; full-length sequences in 3 of the 18 context/surrounding pairs, shorter ones in all 18) / <= 5 over 18 symbols in all 18 pairs (thorough): text short/long, br, b, span, font, code, a[abs], a[javascript:] with one text child, a[javascript:] with element child, nested b>i, a[javascript:] with text + element child, a[javascript:] with text + br + text (+ i, em, strong, u, a[rel]); " +
-			"contexts {body, div, li, blockquote, layout-table cell, data-table cell} x surroundings {among kept paragraphs, among dropped link clusters, between}. Oracle: for every <p> of the parsed input built only from text, br and plain inline/link elements, its visible words are all in Text or none is. " +
+		Rule: "one probe paragraph whose children are every sequence of length <= 4 over 14 inline symbols (quick; full-length sequences in 3 of the 18 context/surrounding pairs, shorter ones in all 18) / <= 5 over 19 symbols in all 18 pairs (thorough): text short/long, br, b, span, font, code, a[abs], a[javascript:] with one text child, a[javascript:] with element child, nested b>i, a[javascript:] with text + element child, a[javascript:] with text + br + text, a[href=#] (+ i, em, strong, u, a[rel]); " +
+			"contexts {body, div, li, blockquote, layout-table cell, data-table cell} x surroundings {among kept paragraphs, among dropped link clusters, between}; plus a fixed mixed paragraph at every nesting depth 1..300. Oracle: for every <p> of the parsed input built only from text, br and plain inline/link elements, its visible words are all in Text or none is. " +
 			"Non-trivial = probe with >= 2 children including a text leaf and an element.",
 		Enumerate: c03Enumerate,
 		Check:     c03Check,
